@@ -82,3 +82,14 @@ def run(cx):
                    'the assertion in Fp12::pow admits every exponent in [0, N-1] (admits up to %s)' % (hex(bound) if bound is not None else '?'), pw.loc())
         else:
             cx.hold('L-POW-ASSERT', 'Fp12::pow', 'Fp12::pow contains no assertion', pw.loc())
+
+
+_run0 = run
+
+
+def run(cx):
+    from .. import rules_s as S
+    _run0(cx)
+    fn = cx.fn('gm_sm9::points::twist_point_add_full', 'S-JADD')
+    if fn is not None:
+        S.s_jadd(cx, 'S-JADD', fn, 'TwistPoint::TwistPoint')   # P = [h1]P2 + Ppub-s must also be right when the two points coincide
